@@ -36,6 +36,8 @@ var intrinsicNotes = map[string]string{
 	"idna":               "native: golang.org/x/net/idna profile construction and ToASCII run natively on concrete hosts",
 	"netip":              "native: net/netip.ParseAddr and Addr methods run natively on concrete hosts",
 	"publicsuffix":       "native: golang.org/x/net/publicsuffix.PublicSuffix runs natively on concrete hosts",
+	"stub-idna":          "stub: idna.Profile.ToASCII on a symbolic host is a nondeterministic (mode 1) or always-succeeding (mode 2) stub: IDNA label semantics are outside the symbolic claim",
+	"stub-netip":         "stub: netip.ParseAddr and the Addr predicates on a symbolic host are nondeterministic (mode 1) or canonical/unzoned/unmapped (mode 2) stubs: IP-literal syntax is outside the symbolic claim",
 }
 
 func init() {
@@ -562,11 +564,33 @@ func (w *W) errorValue(err error) Value {
 	return Iface{T: w.e.errorStringType(), V: Native{err}}
 }
 
+// symAddr stands for the netip.Addr of a symbolic host under the stub modes.
+type symAddr struct {
+	host Str
+}
+
+func (w *W) stubErr() Value {
+	return Iface{T: w.e.errorStringType(), V: Native{fmt.Errorf("stubbed error")}}
+}
+
 func iIdnaToASCII(w *W, fn *ssa.Function, args []Value, pos token.Pos) Value {
 	w.use("idna")
 	p, ok := args[0].(Native)
 	if !ok {
 		unsupp("idna profile is not a native value")
+	}
+	if _, conc := w.conc(args[1].(Str)); !conc {
+		switch w.stubMode {
+		case 1: // nondeterministic: the host is or is not a valid domain
+			w.use("stub-idna")
+			if w.fork(make([]*Term, 2), false, "stub idna.ToASCII") == 0 {
+				return Tuple{args[1], Iface{}}
+			}
+			return Tuple{w.strConst(""), w.stubErr()}
+		case 2: // optimistic: every host is a valid domain
+			w.use("stub-idna")
+			return Tuple{args[1], Iface{}}
+		}
 	}
 	s := w.cstr(args[1], "idna.Profile.ToASCII")
 	r, err := p.V.(*idna.Profile).ToASCII(s)
@@ -589,6 +613,19 @@ func iETLDPlusOne(w *W, fn *ssa.Function, args []Value, pos token.Pos) Value {
 
 func iParseAddr(w *W, fn *ssa.Function, args []Value, pos token.Pos) Value {
 	w.use("netip")
+	if _, conc := w.conc(args[0].(Str)); !conc {
+		switch w.stubMode {
+		case 1:
+			w.use("stub-netip")
+			if w.fork(make([]*Term, 2), false, "stub netip.ParseAddr") == 0 {
+				return Tuple{Native{symAddr{args[0].(Str)}}, Iface{}}
+			}
+			return Tuple{Native{netip.Addr{}}, w.stubErr()}
+		case 2:
+			w.use("stub-netip")
+			return Tuple{Native{symAddr{args[0].(Str)}}, Iface{}}
+		}
+	}
 	s := w.cstr(args[0], "netip.ParseAddr")
 	a, err := netip.ParseAddr(s)
 	return Tuple{Native{a}, w.errorValue(err)}
@@ -598,6 +635,30 @@ func iAddrMethod(w *W, fn *ssa.Function, args []Value, pos token.Pos) Value {
 	n, ok := args[0].(Native)
 	if !ok {
 		unsupp("netip.Addr method on a non-native value")
+	}
+	if sa, isSym := n.V.(symAddr); isSym {
+		// nondeterministic (mode 1) or optimistic (mode 2) properties of a symbolic address
+		alt := w.stubMode == 1 && w.fork(make([]*Term, 2), false, "stub netip.Addr."+fn.Name()) == 1
+		switch fn.Name() {
+		case "Zone":
+			if alt {
+				return w.strConst("zone")
+			}
+			return w.strConst("")
+		case "Is4In6":
+			return w.ts.Bool(alt)
+		case "String":
+			if alt {
+				return w.strConst("<another, canonical, rendering>")
+			}
+			return sa.host
+		case "IsLoopback":
+			if w.stubMode == 2 {
+				alt = w.fork(make([]*Term, 2), false, "stub netip.Addr.IsLoopback") == 1
+			}
+			return w.ts.Bool(alt)
+		}
+		unsupp("netip.Addr.%s on a symbolic address", fn.Name())
 	}
 	a := n.V.(netip.Addr)
 	switch fn.Name() {
@@ -730,6 +791,13 @@ func (w *W) prim(fn *ssa.Function, args []Value, pos token.Pos) Value {
 		w.freezeReachable(args[0], map[any]bool{})
 		return nil
 	case "zzNote":
+		return nil
+	case "zzStubs":
+		m := args[0].(*Term)
+		if !m.IsConst() {
+			unsupp("zzStubs with symbolic mode")
+		}
+		w.stubMode = int(m.Int())
 		return nil
 	}
 	unsupp("unknown harness primitive %s", fn.Name())
